@@ -143,6 +143,15 @@ package mqttproxy
 //        did not drop
 //   C15.backend-duplicate              handed over more often than transmitted
 //   C15.puback-unexpected-id
+//   C15.unacked-message-not-retransmitted-after-takeover   a connection that
+//        took its client id over with cleanSession=0 and inherited the session
+//        object in memory never got a QoS1 message that the client had received
+//        on the old connection but never acknowledged
+//   C15.acknowledged-subscription-lost-in-session-store   a message missed a
+//        client whose session was restored from a stored session that lacked
+//        acknowledged subscriptions although the session store was at rest (21
+//        polls of 300 ms without a put) before the client left: a session
+//        snapshot was dropped, not late (late = the known store lag of C16)
 //   C15.suback-return-code             a SUBACK grants a filter more than the
 //        SUBSCRIBE asked for, or has another number of return codes than filters
 //   C15.local-delivery-lost-on-member-lookup-failure   a message published as not
@@ -319,6 +328,7 @@ type c15Pub struct {
 	B64   bool   `json:"b64,omitempty"`
 	Dist  bool   `json:"dist,omitempty"`
 	Pad   int    `json:"pad,omitempty"`   // bytes appended to the payload
+	First bool   `json:"first,omitempty"` // After refers to the first connection of that id instead of the last
 	After string `json:"after,omitempty"` // client id: issue only once the last connection of that id has finished its initial subscribes
 }
 
@@ -641,9 +651,30 @@ func c15Gen(rng *sim.Rand, tier string) interface{} {
 		t := topic()
 		pr := mkClient(id)
 		pr.Persist = true
-		pr.Init = append([]c15SubPkt{{Subs: []c15Sub{{F: rng.PickStr(t, t, filterFor(t)), Q: 1}}}}, pr.Init...)
-		if len(pr.Init) > 2 {
-			pr.Init = pr.Init[:2]
+		tf := c15SubPkt{Subs: []c15Sub{{F: rng.PickStr(t, t, filterFor(t)), Q: 1}}}
+		if rng.Bool(0.5) {
+			pr.Init = append([]c15SubPkt{tf}, pr.Init...)
+			if len(pr.Init) > 2 {
+				pr.Init = pr.Init[:2]
+			}
+		} else {
+			// the filter the later publishes aim at comes with the last SUBSCRIBE:
+			// it is in the last snapshot of the session only
+			if len(pr.Init) > 1 {
+				pr.Init = pr.Init[:1]
+			}
+			pr.Init = append(pr.Init, tf)
+			// ... while other clients re-subscribe filters they hold already:
+			// session snapshots of several clients on their way to the storage at
+			// the same time
+			for x := 0; x < rng.Range(1, 4); x++ {
+				o := &sc.Clients[rng.Intn(len(sc.Clients))]
+				if len(o.Init) == 0 || len(o.Init[0].Subs) == 0 || len(o.Ops) > 6 {
+					continue
+				}
+				sb := o.Init[0].Subs[rng.Intn(len(o.Init[0].Subs))]
+				o.Ops = append([]c15COp{{K: "sub", GapMs: rng.Pick(0, 0, 1, 5), Subs: []c15Sub{sb}}}, o.Ops...)
+			}
 		}
 		pr.End = rng.PickStr("disconnect", "close", "reset")
 		pr.EndGapMs = rng.Pick(0, 1, 50, 300)
@@ -679,6 +710,85 @@ func c15Gen(rng *sim.Rand, tier string) interface{} {
 			total += p.Burst
 			pb.Pubs = append(pb.Pubs, p)
 		}
+	}
+	// every persistent client that comes back for its stored session gets a
+	// publish of its own, after its return, on a topic that matches a filter of
+	// its predecessor's last SUBSCRIBE (the one only the session's last snapshot
+	// holds)
+	if len(sc.Publishers) > 0 {
+		for i := range sc.Clients {
+			su := &sc.Clients[i]
+			if su.After != "gone" || !su.Persist || !rng.Bool(0.7) {
+				continue
+			}
+			var pr *c15Client
+			for j := 0; j < i; j++ {
+				if sc.Clients[j].ID == su.ID {
+					pr = &sc.Clients[j]
+				}
+			}
+			if pr == nil || !pr.Persist || len(pr.Init) == 0 || len(pr.Init[len(pr.Init)-1].Subs) == 0 {
+				continue
+			}
+			lastSubs := pr.Init[len(pr.Init)-1].Subs
+			f := lastSubs[rng.Intn(len(lastSubs))]
+			var l []string
+			for _, x := range strings.Split(f.F, "/") {
+				switch x {
+				case "+":
+					l = append(l, lv[rng.Intn(3)])
+				case "#":
+					if rng.Bool(0.7) || len(l) == 0 {
+						l = append(l, lv[rng.Intn(3)])
+					}
+				default:
+					l = append(l, x)
+				}
+			}
+			q := f.Q
+			if q > 1 {
+				q = 1
+			}
+			p := c15Pub{ID: fmt.Sprintf("g.%d", i), GapMs: rng.Pick(0, 1, 50), T: strings.Join(l, "/"), Q: q, Dist: true, After: su.ID, Burst: 1}
+			total++
+			pb := &sc.Publishers[rng.Intn(len(sc.Publishers))]
+			pb.Pubs = append(pb.Pubs, p)
+		}
+	}
+	// take-over recipe: a persistent QoS1 subscriber holds an unacknowledged
+	// message (PUBACK withheld or late) when a new connection with its client id
+	// and cleanSession=0 takes over while the old one is still registered: the
+	// session object is inherited in memory, and the pending message must be
+	// retransmitted to the new connection although nothing else is published
+	if rng.Bool(0.12) && len(sc.Clients) <= 8 && len(sc.Publishers) > 0 {
+		id := "t0"
+		t := topic()
+		pr := mkClient(id)
+		pr.Persist = true
+		pr.Init = []c15SubPkt{{Subs: []c15Sub{{F: rng.PickStr(t, t, filterFor(t)), Q: 1}}}}
+		pr.Ops = nil
+		pr.StallAfter, pr.StallMs = 0, 0
+		pr.Acks = []c15Ack{{Omit: 3}}
+		if rng.Bool(0.4) {
+			pr.Acks = []c15Ack{{DelayMs: 450, Ping: rng.Bool(0.5)}}
+		}
+		pr.End = rng.PickStr("", "close", "reset", "ping")
+		pr.EndWhen = "superseded"
+		pr.EndGapMs = rng.Pick(0, 1, 50, 300)
+		su := mkClient(id)
+		su.After = "ready"
+		su.Persist = true
+		su.StartMs = rng.Pick(20, 100, 300, 700)
+		su.Init = nil
+		if rng.Bool(0.3) {
+			su.Ops = nil
+		}
+		su.StallAfter, su.StallMs = 0, 0
+		sc.Clients = append(sc.Clients, pr, su)
+		pb := &sc.Publishers[rng.Intn(len(sc.Publishers))]
+		p := c15Pub{ID: "t.0", GapMs: rng.Pick(0, 1, 10), T: t, Q: 1, Dist: true, After: id, First: true, Burst: rng.Pick(1, 1, 2)}
+		total += p.Burst
+		pb.Pubs = append([]c15Pub{p}, pb.Pubs...)
 	}
 	sc.WaitReady = rng.Bool(0.8)
 	if rng.Bool(0.15) {
@@ -1233,6 +1343,8 @@ type c15Cl struct {
 	flux     map[string]bool // filters whose state in the inherited session is uncertain (known C16 store lag): both outcomes accepted
 	inhF     map[string]bool // filters this connection holds only because its session was inherited
 	nInhRx   int
+	storeLost bool // when this connection ended, the stored session differed from its acknowledged subscriptions although the session store had come to rest: a snapshot was dropped, not late
+	lostSnap  bool // this connection restored such a session
 }
 
 // ---- session storage: the repo's mockStorage behind a recording wrapper --------
@@ -1266,6 +1378,9 @@ func c15DecodeSession(v string) (c15Get, bool) {
 	}
 	g := c15Get{hit: true, clean: info.CleanFlag, topics: map[string]int{}}
 	for f, q := range info.Topics {
+		if q > 1 {
+			q = 1 // granted QoS (a request for QoS 2 is granted 1); messages have QoS 0/1
+		}
 		g.topics[f] = q
 	}
 	return g, true
@@ -1655,6 +1770,20 @@ func (h *c15H) inheritSession(cl *c15Cl) {
 			r.Probe("mqtt.session_restored_from_storage_with_subscriptions")
 		}
 		adopt(gets[0].topics)
+		if pr != nil && !pr.clean && pr.pend == nil && pr.storeLost && !c15SameSubs(gets[0].topics, want) {
+			// the session store was at rest when the predecessor left and still
+			// lacked what had been acknowledged: not the known store lag. The
+			// client holds what its SUBACKs/UNSUBACKs said.
+			for f := range cl.confirmed {
+				delete(cl.confirmed, f)
+				delete(cl.inhF, f)
+			}
+			adopt(want)
+			cl.lostSnap = true
+			r.Probe("mqtt.restored_session_lost_acknowledged_state")
+			r.Eventf("client %s: session restored from storage %s but acknowledged %s (snapshot never stored)", cl.name, c15Subs(gets[0].topics), c15Subs(want))
+			break
+		}
 		lag := false
 		for f, q := range gets[0].topics {
 			if wq, ok := want[f]; !ok || wq != q {
@@ -2314,6 +2443,31 @@ func (h *c15H) endConn(cl *c15Cl) {
 			}
 			r.Sleep(time.Millisecond)
 		}
+		caughtUp := func() bool {
+			g, ok := c15DecodeSession(h.store.last[cl.wid])
+			return ok && c15SameSubs(g.topics, cl.confirmed)
+		}
+		if !caughtUp() && !h.stopping && !cl.dead {
+			// late or dropped? Wait until the session store has come to rest: 21
+			// consecutive polls of 300 ms without any put (at most 20 scheduler
+			// stalls per run: in one of those intervals every snapshot goroutine
+			// that was still on its way and the storing loop have run).
+			r.Probe("mqtt.session_store_behind_after_40ms")
+			same, lastPut := 0, h.store.nPut
+			for it := 0; it < 80 && same < 21 && !h.stopping && !cl.dead && !caughtUp(); it++ {
+				r.Sleep(300 * time.Millisecond)
+				if h.store.nPut != lastPut {
+					lastPut, same = h.store.nPut, 0
+				} else {
+					same++
+				}
+			}
+			if same >= 21 && !caughtUp() && !h.stopping && !cl.dead {
+				cl.storeLost = true
+				r.Probe("mqtt.session_snapshot_never_stored")
+				r.Eventf("client %s: stored session %q differs from the acknowledged subscriptions %s with the store at rest", cl.name, h.store.last[cl.wid], c15Subs(cl.confirmed))
+			}
+		}
 		if h.stopping || cl.dead {
 			return
 		}
@@ -2515,7 +2669,7 @@ func (h *c15H) runPublisher(pb *c15Publisher) {
 		if p.After != "" {
 			var w *c15Cl
 			for _, cl := range h.clients {
-				if cl.spec.ID == p.After {
+				if cl.spec.ID == p.After && (w == nil || !p.First) {
 					w = cl
 				}
 			}
@@ -2734,8 +2888,32 @@ func (h *c15H) describe(m *c15Msg) string {
 
 func (h *c15H) evaluate() {
 	r := h.r
+	// a connection that inherited the session object of its predecessor in
+	// memory (take-over with cleanSession=0) is the same subscriber: QoS1
+	// messages the client has received but never acknowledged are still pending
+	// and must be retransmitted to it - to its current connection - until it
+	// acknowledges them, whether or not anything else is published meanwhile
+	for _, cl := range h.clients {
+		pr := cl.accepted()
+		if !cl.inMemory || cl.clean || !cl.connected || pr == nil || pr.clean || cl.ending || cl.lost != "" || cl.hung || cl.unjudged || cl.dead {
+			continue
+		}
+		for _, key := range pr.rxOrder {
+			rx := pr.rx[key]
+			if !rx.qos1 || rx.stray || rx.ackSeq != 0 || h.ackedByLineage(pr, rx) {
+				continue
+			}
+			if cl.rx[key] != nil {
+				r.Probe("mqtt.inherited_session.unacked_message_retransmitted_to_new_connection")
+				continue
+			}
+			h.violate("C15.unacked-message-not-retransmitted-after-takeover", "QoS1 message %q (packet id %d) was delivered to connection %s (%d copies) and never acknowledged by the client; connection %s took the client id over with cleanSession=0 and inherited the session in memory, stayed connected, and never got a retransmission\n%s",
+				c15Short(key), rx.mid, pr.name, rx.count, cl.name, h.population())
+		}
+	}
 	// statement silent (recorded, not judged): QoS1 copies a persistent client
-	// had not acknowledged when it ended its connection, after its return
+	// had not acknowledged when it ended its connection, after its return on a
+	// session restored from the storage
 	for _, cl := range h.clients {
 		pr := cl.accepted()
 		if cl.clean || !cl.connected || pr == nil || pr.clean || !pr.ending || !(cl.restored || cl.inMemory) || cl.ending || cl.lost != "" || cl.hung {
@@ -2815,6 +2993,11 @@ func (h *c15H) evaluate() {
 						c15Short(m.key), m.topic, cl.name, occ, cl.qcap, m.mfault, h.mFaults, h.describe(m))
 					continue
 				}
+				if cl.lostSnap && hungMatched == "" {
+					h.violate("C15.acknowledged-subscription-lost-in-session-store", "QoS0 message %q on %q never reached eligible client %s (at most %d packets can have been waiting in its outbound queue of capacity %d): its session was restored from the storage, where the snapshot with its acknowledged subscriptions never arrived although the session store had come to rest before the client left (a snapshot was dropped, not late)\n%s",
+						c15Short(m.key), m.topic, cl.name, occ, cl.qcap, h.describe(m))
+					continue
+				}
 				if hungMatched != "" {
 					h.violate("C15.fanout-blocked-by-unresponsive-subscriber", "QoS0 message %q on %q never reached eligible client %s (subscriber %s stopped reading while staying connected; at most %d packets can have been waiting in %s's outbound queue of capacity %d)\n%s",
 						c15Short(m.key), m.topic, cl.name, hungMatched, occ, cl.name, cl.qcap, h.describe(m))
@@ -2834,6 +3017,9 @@ func (h *c15H) evaluate() {
 			case hungMatched != "":
 				class = "C15.fanout-blocked-by-unresponsive-subscriber"
 				why = "subscriber " + hungMatched + " stopped reading while staying connected"
+			case cl.lostSnap:
+				class = "C15.acknowledged-subscription-lost-in-session-store"
+				why = "its session was restored from the storage, where the snapshot with its acknowledged subscriptions never arrived although the session store had come to rest before the client left (a snapshot was dropped, not late)"
 			case m.local && (m.mfault == "err" || m.mfault == "errnil" || (!m.looked && h.mFaults > 0)):
 				class = "C15.local-delivery-lost-on-member-lookup-failure"
 				why = fmt.Sprintf("published as not yet distributed; the cluster member look-up of this publish: %q, failed look-ups in this run: %d; local delivery must not depend on the peers", m.mfault, h.mFaults)
@@ -3261,7 +3447,8 @@ func TestVerifC15(t *testing.T) {
 			"not generated: QoS2, invalid filters, '$' topics, wills, retained, keep-alive expiry (keep-alive 0), storage latency/errors (C16), SUBSCRIBE/UNSUBSCRIBE by a connection that is going to be superseded",
 			"cleanSession=0 on a re-used client id: from its CONNACK on the connection holds the subscriptions of the stored session the broker was answered with during the handshake (restored from storage) or the acknowledged subscriptions of the predecessor (no storage look-up: inherited in memory); filters on which a restored session differs from the predecessor's acknowledged state (known C16 store-lag findings) are in flux until the connection (un)subscribes them itself: both outcomes accepted; more than one look-up during a handshake: connection not judged",
 			"redelivery until PUBACK is required on restored and inherited sessions like on any other; a PUBACK for the same message and packet id sent on a superseded connection that shares the session object counts as the client's acknowledgement",
-			"QoS1 copies unacknowledged when a persistent client ended its connection are not required to be redelivered after its return (statement silent; recorded by probes mqtt.unacked_qos1_of_ended_connection_*)",
+			"QoS1 copies unacknowledged when a persistent client ended its connection are not required to be redelivered after its return on a session restored from the storage (statement silent; recorded by probes mqtt.unacked_qos1_of_ended_connection_*); on a session inherited in memory (take-over with cleanSession=0) the connection is the same subscriber: a message the client received and never acknowledged (no PUBACK written on any connection sharing the session) must reach the new connection by retransmission, also when nothing else is published",
+			"store lag vs lost snapshot: before a persistent client that will come back ends, it waits for the stored session to equal its acknowledged subscriptions (40 x 1 ms, then up to 80 polls of 300 ms); only if 21 consecutive polls passed without any put and the stored session still differs, the difference is not excused at the restore (the client holds what was acknowledged); otherwise the differing filters are in flux (known C16 store lag)",
 			"population dynamics: a connection is judged from its own CONNACK/SUBACK/UNSUBACK on while it stays connected; not judged any more once it ends itself, once another connection with its client id starts to dial, or when it connects while the delete-watch echo of an earlier clean session of its id may be pending (known C16 findings); messages issued before the CONNACK of a re-used id may or may not reach the new connection",
 			"a QoS1 copy of a message issued before the CONNACK of a re-used client id is treated as an ordinary message only if the id's current session holds it under that packet id (white-box look, decides the client's behaviour only); otherwise it is neither acknowledged nor judged (it stems from the predecessor's session)",
 			"C15.broker-deadlock = Broker.getClient not returning during 21 polls of 300 ms",
